@@ -15,14 +15,13 @@ from .. import rig
 ID = 'C19'
 LEVEL = 'exploration'
 TECHNIQUE = 'bounded-exhaustive enumeration of configuration tables (key x code value x environment value; path x include x exclude x app-root) on the real ConfigService / deep.config / consumers, against a reference precedence and classification'
-RULE = ('(a) 8 documented + 2 undocumented keys x code{absent,value,callable,falsy} x env{absent,text}; (b) per documented key: the '
+RULE = ('(a) 8 documented + 2 undocumented keys x code{absent,value,callable,falsy,None} x env{absent,text set before the import of deep,text set after it}; (b) per documented key: the '
         'documented code form vs the environment text must drive the same observable behaviour (timer thread alive and interval numeric, '
         'channel kind, classification, logging config file, auth metadata, service url); (c) 7 paths x include{none,one,two} x '
         'exclude{none,one,two} x app root{none,one}, given as lists, as documented comma strings in code, and as environment text; '
         'non-trivial = code and environment disagree, or a prefix list has >= 1 entry'
         ' ; include / exclude text with empty items (trailing and doubled commas) in code and environment')
-ASSUMPTIONS = ['a code value of None is treated as absent (don\'t-care)', 'sys.exec_prefix is always excluded (documented default)',
-               'environment variables are read when deep.config is imported: each case re-imports it under the controlled environment']
+ASSUMPTIONS = ['sys.exec_prefix is always excluded (documented default), in whichever form the rest of the list is given']
 
 DOCUMENTED = ['SERVICE_URL', 'SERVICE_SECURE', 'LOGGING_CONF', 'POLL_TIMER', 'SERVICE_AUTH_PROVIDER', 'IN_APP_INCLUDE', 'IN_APP_EXCLUDE', 'APP_ROOT']
 UNDOC = ['SERVICE_USERNAME', 'MADE_UP_KEY']
@@ -36,9 +35,10 @@ def bounds(tier):
 def cases(tier, seed):
     out = []
     for k in DOCUMENTED + UNDOC:
-        for code in ('absent', 'value', 'callable', 'falsy'):
+        for code in ('absent', 'value', 'callable', 'falsy', 'none'):
             for env in (None, 'envtext'):
-                out.append({'k': 'prec', 'key': k, 'code': code, 'env': env})
+                for late in ((False, True) if env else (False,)):
+                    out.append({'k': 'prec', 'key': k, 'code': code, 'env': env, 'late': late})
     for key in ('POLL_TIMER', 'SERVICE_SECURE', 'SERVICE_URL', 'SERVICE_AUTH_PROVIDER', 'LOGGING_CONF', 'APP_ROOT'):
         for variant in range(4):
             out.append({'k': 'parity', 'key': key, 'v': variant})
@@ -54,18 +54,22 @@ def cases(tier, seed):
 class Env:
     """Controlled os.environ for the DEEP_ keys + re-import of deep.config."""
 
-    def __init__(self, settings):
+    def __init__(self, settings, late=False):
         self.settings = settings
+        self.late = late      # the variables are set after deep.config has been imported (load_dotenv() after `import deep`)
 
     def __enter__(self):
         import deep.config
         self.saved = {k: os.environ.get(k) for k in ENVKEYS}
         for k in ENVKEYS:
             os.environ.pop(k, None)
+        if self.late:
+            importlib.reload(deep.config)
         for k, v in self.settings.items():
             if v is not None:
                 os.environ[k] = v
-        importlib.reload(deep.config)
+        if not self.late:
+            importlib.reload(deep.config)
         return self
 
     def __exit__(self, *a):
@@ -78,6 +82,7 @@ class Env:
         importlib.reload(deep.config)
 
 
+LATE = False
 DEFAULTS = {'SERVICE_URL': 'deep:43315', 'SERVICE_SECURE': 'True', 'LOGGING_CONF': None, 'POLL_TIMER': 10, 'SERVICE_AUTH_PROVIDER': None, 'APP_ROOT': ''}
 
 
@@ -92,7 +97,7 @@ def case_prec(ctx, desc):
     codeval = {'value': 'codeval', 'callable': (lambda: 'called'), 'falsy': 0}.get(code)
     custom = {} if code == 'absent' else {key: codeval}
     ctx.case()
-    with Env({'DEEP_' + key: env}):
+    with Env({'DEEP_' + key: env}, late=desc.get('late', False)):
         from deep.config import ConfigService as CS
         try:
             got = CS(custom, tracepoints=TracepointConfigService()).__getattribute__(key)
@@ -105,11 +110,13 @@ def case_prec(ctx, desc):
         exp = ['called']
     elif code == 'falsy':
         exp = [0]
+    elif code == 'none':
+        exp = [None]       # None is a value ('no auth provider', 'no logging config'): given in code, it wins
     elif key in ('IN_APP_INCLUDE', 'IN_APP_EXCLUDE'):
         base = [env] if env else []
         exp = [base + ([sys.exec_prefix] if key == 'IN_APP_EXCLUDE' else [])]
     elif key == 'APP_ROOT':
-        exp = ['', env]     # APP_ROOT is resolved from the environment by deep.start(); either is acceptable here
+        exp = [env or '']
     elif key in DEFAULTS:
         exp = [env if env is not None else DEFAULTS[key]]
     else:
@@ -121,7 +128,7 @@ def case_prec(ctx, desc):
     ctx.outcome((key, code, env is not None))
     if got not in exp:
         who = 'code-loses-to-env' if code != 'absent' and env and got == env else 'callable-not-called' if code == 'callable' else \
-              'falsy-code-value-ignored' if code == 'falsy' else 'env-ignored' if env else 'default'
+              'falsy-code-value-ignored' if code in ('falsy', 'none') else ('env-set-after-import-ignored' if desc.get('late') else 'env-ignored') if env else 'default'
         ctx.violation(f'C19/precedence/{who}/{key}', f'{key}: code={code} env={env!r} resolved to {got!r}, reference {exp}', desc)
     elif len(ctx.samples) < 2 and code == 'callable' and env:
         ctx.sample({'key': key, 'code': 'callable returning "called"', 'env': env, 'resolved': got})
@@ -134,7 +141,7 @@ def observe_poll_timer(custom, env):
     old_hook = threading.excepthook
     threading.excepthook = lambda a: errs.append(a.exc_value)
     try:
-        with Env(env), rig.DeepWorld(custom=dict(custom, NO_TRACE=True)) as w:
+        with Env(env, late=LATE), rig.DeepWorld(custom=dict(custom, NO_TRACE=True)) as w:
             w.deep.start()
             t = w.deep.poll.timer
             t.thread.join(0.15)
@@ -151,7 +158,7 @@ def observe_poll_timer(custom, env):
 
 
 def observe_channel(custom, env):
-    with Env(env), rig.DeepWorld(custom=dict(custom, NO_TRACE=True)) as w:
+    with Env(env, late=LATE), rig.DeepWorld(custom=dict(custom, NO_TRACE=True)) as w:
         try:
             w.deep.start()
         except BaseException as e:
@@ -160,7 +167,7 @@ def observe_channel(custom, env):
 
 
 def observe_auth(custom, env):
-    with Env(env), rig.DeepWorld(custom=dict(custom, NO_TRACE=True)) as w:
+    with Env(env, late=LATE), rig.DeepWorld(custom=dict(custom, NO_TRACE=True)) as w:
         try:
             w.deep.start()
         except BaseException as e:
@@ -174,7 +181,7 @@ def observe_logging(custom, env):
     saved = logging.config.fileConfig
     logging.config.fileConfig = lambda fname=None, **kw: seen.append(fname)
     try:
-        with Env(env):
+        with Env(env, late=LATE):
             import deep.logging
             from deep.config import ConfigService
             from deep.config.tracepoint_config import TracepointConfigService
@@ -191,7 +198,7 @@ def observe_app_root(custom, env):
     saved = deep.logging.init
     deep.logging.init = lambda cfg=None: None
     try:
-        with Env(env), rig.DeepWorld(custom={}) as w:
+        with Env(env, late=LATE), rig.DeepWorld(custom={}) as w:
             import deep.api.deep as D
             made = []
 
@@ -250,6 +257,18 @@ def case_parity(ctx, desc):
         b = obs({}, env)
     except BaseException as e:
         b = {'raised': type(e).__name__, 'msg': str(e)[:80]}
+    # the environment filled after `import deep`, before the agent is started
+    global LATE
+    LATE = True
+    try:
+        c = obs({}, env)
+    except BaseException as e:
+        c = {'raised': type(e).__name__, 'msg': str(e)[:80]}
+    finally:
+        LATE = False
+    if c != b:
+        ctx.violation(f'C19/parity/{key}/env-set-after-import-differs', f'{key}: environment {env} set before deep is imported -> {b}; set after the import, before the start -> {c}', desc)
+        return
     ctx.nt(('parity', key, v))
     ctx.outcome((key, str(a), str(b)))
     want = WANT[key](v)
@@ -289,14 +308,14 @@ def case_frames(ctx, desc):
         return (',,'.join(items) + ',') if gaps else ','.join(items)
     form = form.replace('-gaps', '')
     if form == 'list':
-        custom, env = {'IN_APP_INCLUDE': list(inc), 'IN_APP_EXCLUDE': list(exc) + [sys.exec_prefix], 'APP_ROOT': root}, {}
+        custom, env = {'IN_APP_INCLUDE': list(inc), 'IN_APP_EXCLUDE': list(exc), 'APP_ROOT': root}, {}
     elif form == 'codestr':
         # the documented form: "a string of comma separated values"
         custom, env = {'APP_ROOT': root}, {}
         if inc:
             custom['IN_APP_INCLUDE'] = text(inc)
         if exc:
-            custom['IN_APP_EXCLUDE'] = text(exc + [sys.exec_prefix])
+            custom['IN_APP_EXCLUDE'] = text(exc)
     else:
         custom = {'APP_ROOT': root}
         env = {'DEEP_IN_APP_INCLUDE': text(inc) if inc else None, 'DEEP_IN_APP_EXCLUDE': text(exc) if exc else None}
